@@ -21,6 +21,17 @@ Facts emitted (booleans only):
     files are sent with self.upload(path, relative, write_into=True, ...);
   * download_final_destination_ok, download_child_ok -- the mirror image in Client.download:
     `full = destination / name.relative_to(source)` and self.download(name, full, write_into=True, ...).
+  * lister_queue_unbounded -- the worklist of the recursive lister inside Client.list (the object that receives both
+    `.append(<entry>)` and `.popleft()` / `.pop(..)`, whatever it is called) is created as an UNBOUNDED queue:
+    `collections.deque()` / `deque(<iterable>)` / a list display / `list(..)`.  A `maxlen` (keyword or second positional argument,
+    other than the literal None) gives false: a full bounded deque silently discards from the other end on append, i.e.
+    directories that were queued are never visited; the model's worklist (Model/ClientTree.v list_loop, `dirs`) is a
+    list without bound.  Any other constructor is Unclassified.
+  * upload_queue_unbounded -- the same for the queue of local directories in Client.upload (`sources`).
+
+Local variables are alpha-renamed to the reference spelling before classification (upload_canonical / download_canonical:
+the loop variables, the directory taken from the queue and the computed child destination are identified by what they
+are bound to), so renaming a local does not change a fact; parameters (source, destination, write_into) are public API.
 """
 import ast
 from pathlib import Path
@@ -102,6 +113,71 @@ def kw(call, name):
     return None
 
 
+class _Rename(ast.NodeTransformer):
+    def __init__(self, mapping):
+        self.mapping = mapping
+
+    def visit_Name(self, node):
+        if node.id in self.mapping:
+            return ast.copy_location(ast.Name(id=self.mapping[node.id], ctx=node.ctx), node)
+        return node
+
+
+def canonical_locals(fn, mapping):
+    """alpha-rename LOCAL variables of fn to the names the reference shapes below are written with (the loop variable,
+    the queue element, the computed child destination are found by what they are BOUND to, not by their spelling).
+    Parameters keep their names (they are the public keyword API).  Fails closed when a renaming could capture."""
+    mapping = {a: b for a, b in mapping.items() if a != b}
+    if not mapping:
+        return fn
+    params = {a.arg for a in ast.walk(fn) if isinstance(a, ast.arg)}
+    used = {n.id for n in ast.walk(fn) if isinstance(n, ast.Name)}
+    for a, b in mapping.items():
+        if a in params or b in params or (b in used and b not in mapping):
+            raise Unclassified(f"{fn.name}: cannot rename local {a} to {b} without capture")
+    if len(set(mapping.values())) != len(mapping):
+        raise Unclassified(f"{fn.name}: ambiguous canonical names {mapping}")
+    import copy
+
+    return ast.fix_missing_locations(_Rename(mapping).visit(copy.deepcopy(fn)))
+
+
+def relative_to_locals(loop):
+    """plain local names assigned, inside the loop, a value that contains a `.relative_to(..)` call"""
+    out = []
+    for st in walk_own(loop.body):
+        if isinstance(st, ast.Assign) and len(st.targets) == 1 and isinstance(st.targets[0], ast.Name):
+            if any(isinstance(n, ast.Call) and isinstance(n.func, ast.Attribute) and n.func.attr == "relative_to"
+                   for n in ast.walk(st.value)) and st.targets[0].id not in out:
+                out.append(st.targets[0].id)
+    return out
+
+
+def upload_canonical(fn):
+    loops = [st for st in walk_own(fn.body) if isinstance(st, ast.AsyncFor) and isinstance(st.iter, ast.Call)
+             and src(st.iter.func) == "self.path_io.list" and len(st.iter.args) == 1 and not st.iter.keywords
+             and isinstance(st.iter.args[0], ast.Name) and isinstance(st.target, ast.Name)]
+    if len(loops) != 1:
+        raise Unclassified("upload: expected exactly one `async for <child> in self.path_io.list(<directory>)`")
+    rel = relative_to_locals(loops[0])
+    if len(rel) != 1:
+        raise Unclassified(f"upload: expected one local computed with relative_to() in the child loop, found {rel}")
+    return canonical_locals(fn, {loops[0].target.id: "path", loops[0].iter.args[0].id: "src", rel[0]: "relative"})
+
+
+def download_canonical(fn):
+    loops = [st for st in walk_own(fn.body) if isinstance(st, ast.For) and src(st.iter) == "await self.list(source)"
+             and isinstance(st.target, ast.Tuple) and len(st.target.elts) == 2
+             and all(isinstance(e, ast.Name) for e in st.target.elts)]
+    if len(loops) != 1:
+        raise Unclassified("download: expected exactly one `for <name>, <info> in await self.list(source)`")
+    full = relative_to_locals(loops[0])
+    if len(full) != 1:
+        raise Unclassified(f"download: expected one local computed with relative_to() in the child loop, found {full}")
+    a, b = (e.id for e in loops[0].target.elts)
+    return canonical_locals(fn, {a: "name", b: "info", full[0]: "full"})
+
+
 def upload_facts(fn):
     loops = [st for st in walk_own(fn.body) if isinstance(st, ast.AsyncFor) and src(st.iter) == "self.path_io.list(src)"]
     if len(loops) != 1 or src(loops[0].target) != "path":
@@ -153,15 +229,52 @@ def download_facts(fn):
     return True
 
 
+def queue_unbounded(fn):
+    """the worklist of Client.list / Client.upload, found by how it is USED (append + popleft/pop), not by its name"""
+    def recv(call_attr):
+        out = set()
+        for n in ast.walk(fn):
+            if isinstance(n, ast.Call) and isinstance(n.func, ast.Attribute) and n.func.attr in call_attr:
+                out.add(src(n.func.value))
+        return out
+
+    queues = recv({"append", "appendleft"}) & recv({"popleft", "pop"})
+    if len(queues) != 1:
+        raise Unclassified(f"{fn.name}: expected exactly one worklist (append + popleft/pop on the same object), found {sorted(queues)}")
+    q = next(iter(queues))
+    made = [n for n in ast.walk(fn) if isinstance(n, ast.Assign) and any(src(t) == q for t in n.targets)]
+    if not made:
+        raise Unclassified(f"{fn.name}: the worklist {q} is never created inside Client.list")
+    for n in ast.walk(fn):
+        if isinstance(n, (ast.AugAssign, ast.AnnAssign)) and src(n.target) == q:
+            raise Unclassified(f"{fn.name}: augmented/annotated assignment to the worklist: {src(n)}")
+    unbounded = True
+    for a in made:
+        v = a.value
+        if isinstance(v, ast.List) or (isinstance(v, ast.Call) and src(v.func) == "list"):
+            continue  # a list has no bound
+        if isinstance(v, ast.Call) and src(v.func) in ("collections.deque", "deque"):
+            bound = [k.value for k in v.keywords if k.arg == "maxlen"] + list(v.args[1:2])
+            if any(k.arg not in ("maxlen", "iterable") for k in v.keywords) or len(v.args) > 2:
+                raise Unclassified(f"{fn.name}: worklist constructor {src(v)}")
+            if any(not (isinstance(b, ast.Constant) and b.value is None) for b in bound):
+                unbounded = False
+            continue
+        raise Unclassified(f"{fn.name}: worklist created as {src(v)}")
+    return unbounded
+
+
 def generate(src_dir):
     path = Path(src_dir) / "client.py"
     tree = ast.parse(path.read_text())
-    up = method(tree, "Client", "upload")
-    dl = method(tree, "Client", "download")
+    up = upload_canonical(method(tree, "Client", "upload"))
+    dl = download_canonical(method(tree, "Client", "download"))
     up_dst = final_destination_ok(up, "pathlib.Path", "pathlib.PurePosixPath")
     fixed, uses = upload_facts(up)
     dl_dst = final_destination_ok(dl, "pathlib.PurePosixPath", "pathlib.Path")
     dl_child = download_facts(dl)
+    q_unbounded = queue_unbounded(method(tree, "Client", "list"))
+    uq_unbounded = queue_unbounded(up)
     b = emit.boolean
     return emit.HEADER.format(src=str(path)) + f"""
 (* Client.upload: the destination of a child inside `async for path in self.path_io.list(src)`
@@ -172,5 +285,9 @@ Definition upload_final_destination_ok : bool := {b(up_dst)}.
 Definition upload_children_use_relative : bool := {b(uses)}.
 Definition download_final_destination_ok : bool := {b(dl_dst)}.
 Definition download_child_ok : bool := {b(dl_child)}.
+(* Client.list: the recursive lister's worklist of pending directories is created without a bound (no maxlen) *)
+Definition lister_queue_unbounded : bool := {b(q_unbounded)}.
+(* Client.upload: likewise the queue of local directories still to be walked *)
+Definition upload_queue_unbounded : bool := {b(uq_unbounded)}.
 Definition translator_ok : bool := true.
 """
